@@ -170,12 +170,15 @@ ClassChars == [
   space |-> <<32>>, tab |-> <<9>>, lf |-> <<10>>,
   unsafe |-> <<34, 60, 62, 92, 94, 96, 123, 124, 125>>,
   latin |-> <<233>>, bmp |-> <<8364, 20013>>, nonbmp |-> <<128512>>,
+  \* text that is not in a Unicode normal form: letter + combining mark, a compatibility singleton (OHM SIGN) - the
+  \* location is these code points, nothing may "normalise" it on the way
+  decomposed |-> <<117, 776, 97>>, singleton |-> <<8486, 8491>>,
   mixed |-> <<32, 43, 37, 47, 38, 61, 63, 35, 233, 128512, 32>>]
 ClassSeq == <<"alnum", "marks", "colon", "slash", "qmark", "hash", "lbrack", "rbrack", "at", "excl", "dollar",
               "amp", "apos", "lpar", "rpar", "star", "plus", "comma", "semi", "eq", "pct", "pctseq", "pct2f",
-              "space", "tab", "lf", "unsafe", "latin", "bmp", "nonbmp", "mixed">>
+              "space", "tab", "lf", "unsafe", "latin", "bmp", "nonbmp", "decomposed", "singleton", "mixed">>
 AllClasses == {ClassSeq[i] : i \in 1..Len(ClassSeq)}
-QuickClasses == {"alnum", "slash", "amp", "plus", "space", "mixed"}
+QuickClasses == {"alnum", "slash", "amp", "plus", "space", "decomposed", "mixed"}
 ClassIdx(c) == CHOOSE i \in 1..Len(ClassSeq) : ClassSeq[i] = c
 RotClass(c, i) == ClassSeq[((ClassIdx(c) + i - 1) % Len(ClassSeq)) + 1]
 
